@@ -42,7 +42,7 @@ PROPS = {
                         "compute_data_hash of chunks is checked by the C06 suite, here only by the harness monitor"],
     },
     "C06": {
-        "modules": ["XetProps.C06", "XetProps.C06Sens"],
+        "modules": ["XetProps.C06", "XetProps.C06Sens", "XetProps.C06Text"],
         "spec_ops": ["hash.", "hex.", "hashedwrite"],
         "theorems": [
             "Xet.Merkle.C06_sensitivity",
@@ -70,6 +70,8 @@ PROPS = {
             "Xet.Merkle.C06_hashedwrite_streaming",
             "Xet.Merkle.C06_hashedwrite_streaming_faulty",
             "Xet.Merkle.C06_hashedwrite_retry_exact",
+            "Xet.Hash.C06_base64_roundtrip", "Xet.Hash.C06_base64_shape", "Xet.Hash.C06_base64_injective",
+            "Xet.Hash.C06_base64_bytes_roundtrip", "Xet.Hash.C06_base64_rejects_padding",
         ],
         "suites": ["hashes", "xorb_validate"],
         "level_text": "Theorems for every chunk list and every choice of hash primitives: producer xorb hash = validators' route, merge "
